@@ -44,7 +44,7 @@ def repo_key(tier: str) -> str:
     for p in sorted((C.VERIF / "coq").rglob("*.v")):
         if "/gen/" not in str(p):
             h.update(p.read_bytes())
-    for p in ("imp_run.py", "imp_lib.py", "res_lib.py", "fa_lib.py"):
+    for p in ("imp_run.py", "imp_lib.py", "res_lib.py", "fa_lib.py", "multi_scen.py"):
         h.update((C.VERIF / "harness" / p).read_bytes())
     h.update(f"{tier}:{C.SEED}".encode())
     return h.hexdigest()[:20]
@@ -253,6 +253,10 @@ def gen_projects(rng: random.Random, tier: str) -> list[dict]:
     }
     for name, files in fixed.items():
         out.append({"name": name, "kind": "fixed", "prog": Fixed(["top"]), "files": files, "refs": [], "place": {}, "follow": 1, "exclude_imports": None, "extra": {}})
+    import multi_scen
+    for name, sc in multi_scen.SCENARIOS.items():
+        out.append({"name": name, "kind": "fixed", "prog": Fixed(sorted(sc["expect"])), "files": sc["files"], "refs": [], "place": {}, "follow": 1, "exclude_imports": None,
+                    "extra": {}, "expected": sc["expect"]})
     # C12: import graphs over local / site-packages / stdlib modules x levels x exclusions
     for i in range(n_graph):
         prog = I.Program(rng, rng.randint(2, 6), with_classes=False)
@@ -330,7 +334,9 @@ def run(tier: str) -> dict:
                     "resolutions": multi["resolutions"], "spec_excluded": [os.path.relpath(o, root) for o in excluded],
                     "spec_graph": {os.path.relpath(o, root): [os.path.relpath(g, root) for g in v] for o, v in graph.items() if o.startswith(str(root))},
                     "observed_origins": None if multi["modules"] is None else [os.path.relpath(os.path.realpath(multi["modules"][k]["file"]), root) for k in multi["import_keys"]],
-                    "place": pr["place"], "has_term": term is not None}
+                    "place": pr["place"], "has_term": term is not None,
+                    "ir_keys_before": None if multi["modules"] is None else {k: sorted(e["id"] for e in v["snapshot"]) for k, v in multi["modules"].items()},
+                    "ir_keys_after": None if multi.get("after") is None else {k: sorted(e["id"] for e in v) for k, v in multi["after"].items()}}
             if term is not None:
                 cases.append(term)
                 metas.append(meta)
